@@ -78,7 +78,7 @@ def run(ctx):
         "samples": walked[:3],
     })
     for f in fails[:3]:
-        ctx.violation(f["what"], dict(kind="c14", **f))
+        ctx.violation(f["what"], {**f, "check": "c14"})
 
 
 def replay(doc):
